@@ -22,7 +22,8 @@ NOT_COVERED = [
     'pad_same_decode is proved on C01\'s decoder skeleton, where the SILK/CELT/range-decoder DSP is an oracle: the theorem assumes the DSP '
     'answers the same when it is handed the same frame bytes at a shifted address (OracleShift); the frame bytes are proved identical. '
     'The DSP itself is not modelled: S4 decodes x and pad x with the real decoder on a quarter of the pad cases and compares PCM and final range',
-    'opus_int32 overflow with extension payloads of about 2 GB and maxlen near INT_MAX (see UNPROVED int_ranges with extensions)',
+    'opus_int32 wrap of the extension-path size arithmetic is excluded only for maxlen <= 2139062142 or ext_len <= 2^30 (int_ranges_ext; the '
+    'bound is tight, int_ranges_ext_tight); beyond it the C code computes a signed overflow (UB) — needs > 2 GB of extension payload',
 ]
 ASSUMPTIONS = ['pad_same_decode: the DSP oracles depend on the packet only through the frame bytes they are pointed at (OracleShift o1 o2 d)',
                'len / maxlen arguments equal the sizes of the supplied buffers (exact-size heap blocks and guard bytes under ASan)',
@@ -38,13 +39,15 @@ REQUIRED_THEOREMS = [
     'OpusProps.C07.out_roundtrip_ext', 'OpusProps.C07.out_roundtrip_ext_nopad', 'OpusProps.C07.out_roundtrip_ext_norepeat', 'OpusProps.C07.out_malformed_padding_dropped',
     'OpusProps.C07.unpad_in_place', 'OpusProps.C07.ms_unpad_in_place', 'OpusProps.C07.move_frames_safe',
     'OpusProps.C07.pad_same_packet_inputs', 'OpusProps.C07.pad_same_decode', 'OpusProps.C07.int_ranges_noext',
+    'OpusProps.C07.int_ranges_ext', 'OpusProps.C07.int_ranges_ext_tight', 'OpusProps.C07.ms_unpad_bytes', 'OpusProps.C07.ms_pad_bytes',
+    'OpusProps.C07.ms_unpad_validated', 'OpusProps.C07.ms_unpad_stream_same_decode', 'OpusProps.C07.ms_unpad_same_decode',
 ]
 UNPROVED = [
-    'int_ranges with extensions: tot_size + ext_len + nb_255s + 1 (repacketizer.c:286) is only bounded by about maxlen*(1+1/254); it stays '
-    'inside opus_int32 when maxlen < 2^30, but for maxlen near INT_MAX together with > 2 GB of extension payload the 32-bit sum could wrap '
-    '(not reachable with real buffers; recorded, not proved either way); int_ranges_noext covers the extension-free paths',
-    'byte-string level statements for the multistream variants (ms_unpad_spec / ms_pad_spec / ms_unpad_in_place are stated on lists of valid '
-    'packets and their Appendix-B serialisation, not on arbitrary byte strings with a rejection clause)',
+    'ms_pad_same_decode: the analogue of ms_unpad_same_decode for opus_multistream_packet_pad (only the last stream changes; follows the '
+    'same way from pad_same_decode and the loop lemma msFullLoop_unpad generalised to an arbitrary per-stream packet map) — not written',
+    'rejecting calls of opus_multistream_packet_unpad in place: the C function has already rewritten the streams before the offending one when '
+    'it returns OPUS_INVALID_PACKET (e.g. 03 41 01 01 AA 00 | 01 55, 2 streams -> buffer starts 00 01 AA); the in-place model returns no '
+    'buffer on error, so what exactly is modified is not a theorem (ms_unpad_bytes states the return values only)',
 ]
 
 
